@@ -404,10 +404,12 @@ def expectL (d : List (St × Rat)) (g : St → Rat) : Rat := (d.map (fun p => p.
 def massAt (n : Nat) (d : List (St × Rat)) (a : St) : Rat :=
   expectL d (fun τ => if (List.range n).all (fun u => τ u == a u) then 1 else 0)
 
-/-- what the exact-inference query reports: E(inf^k)/E(ind) with `ind = [evidence]`, `inf = x_t * ind`,
-    for n ≥ 1 (both are constant in n from the first iteration on) -/
+/-- what the exact-inference query reports: E(inf^k)/E(ind) with `ind = [evidence]`, `inf = x_t * ind`, for
+    n ≥ 1 (both are constant in n from the first iteration on); for target power 0 the numerator asked for is
+    E(ind) itself (`generate_query`, since repo commit 854e393) -/
 def genCondMoment (net : Net) (σ : St) (ev : List (Nat × Nat)) (t k : Nat) : Rat :=
-  expectL (genLaw net σ) (fun τ => (((τ t : Nat) : Rat) * ind ev τ) ^ k) / expectL (genLaw net σ) (ind ev)
+  (if k = 0 then expectL (genLaw net σ) (ind ev)
+   else expectL (genLaw net σ) (fun τ => (((τ t : Nat) : Rat) * ind ev τ) ^ k)) / expectL (genLaw net σ) (ind ev)
 
 /-- sampling-time query: (E(count), E(continue)) after n iterations when an iteration matches with
     probability q independently of the past: `continue = 0` on a match, then `count = count + continue` -/
